@@ -270,6 +270,18 @@ Fixpoint json_dec (f : nat) (e : env) (s : schema) (j : jv) {struct f} : res ava
     end
   end.
 
+(* json_reader: decode the document, build the Python value (as the binary reader does from the same wire value) *)
+Definition json_read (f : nat) (ro : ropts) (e : env) (s : schema) (j : jv) : res pyval :=
+  let* a := json_dec f e s j in match py_of ro e s a with Some v => Ok v | None => Err end.
+
+(* l[i] := x *)
+Fixpoint set_nth {A} (i : nat) (x : A) (l : list A) : list A :=
+  match l, i with
+  | [], _ => []
+  | _ :: l, O => x :: l
+  | y :: l, S i => y :: set_nth i x l
+  end.
+
 (** ---- side conditions of the round trip, as booleans ---- *)
 Fixpoint nodupb (l : list str) : bool :=
   match l with [] => true | x :: l => negb (existsb (bytes_eqb x) l) && nodupb l end.
